@@ -413,11 +413,14 @@ pub(crate) mod verif_state {
 
 impl Drop for BreakerBase {
     fn drop(&mut self) {
+        // the state is read before the listener list is locked: every transition (and the exit hook of a
+        // rejected probe) takes the state lock first and the listener list inside it
+        let state = self.current_state();
         #[cfg(flea1lt_sentinel_rust_verif)]
         crate::verif::sched::point("lk:circuitbreaker.STATE_CHANGE_LISTERNERS:lock");
         let listeners = state_change_listeners().lock().unwrap();
         for listener in &*listeners {
-            listener.on_circuit_breaker_drop(self.current_state(), Arc::clone(&self.rule));
+            listener.on_circuit_breaker_drop(state, Arc::clone(&self.rule));
         }
     }
 }
